@@ -960,7 +960,7 @@ impl ProxyNode {
 pub fn wire_request(packet: RespPacket) -> Option<Cmd> {
     use undermoon::protocol::{DecodedPacket, EncodedPacket};
     let mut bytes: Vec<u8> = vec![];
-    packet.encode(|b: &[u8]| bytes.extend_from_slice(b)).ok()?;
+    let (_n, _f) = packet.encode(|b: &[u8]| bytes.extend_from_slice(b)).ok()?;
     let mut buf = bytes::BytesMut::from(&bytes[..]);
     match RespVec::decode(&mut buf, ()) {
         Ok(Some(r)) if buf.is_empty() => resp_to_cmd(&r),
